@@ -202,6 +202,11 @@ mech("openapi-bounds-through-float64",
  "rule bounds are converted to float64: bounds beyond 2^53 are rounded",
  [("C19","rules/numeric-*/int64+int64number/bound={gt2p53,lt-2p53}*",["schema-accepts-what-rules-reject","schema-rejects-what-rules-accept"],None)])
 
+mech("openapi-document-named-by-short-service-name",
+ "the OpenAPI plugin names its output <Service>.openapi.<ext> without the proto package: two packages that declare the same service name (the usual v1/v2 layout) in one invocation emit the same file name twice, which protoc rejects; tools that concatenate get an unparsable document",
+ [("C18","oas/versions/*",["duplicate-file-name","document-count","unparsable","operation-count"],None),
+  ("C15","determinism/versions/*/openapiv3/{permuted,single-vs-multi}",["nondeterministic"],None)])
+
 mech("openapi-inverted-range-as-conjunction",
  "a range rule whose upper bound lies below its lower bound means 'outside the interval' (gt_lt_exclusive etc.); the document publishes both bounds as a conjunction, which no number satisfies",
  [("C19","rules/numeric-{gt>lt,gte>lte}/*",["schema-rejects-what-rules-accept"],None)])
